@@ -147,27 +147,34 @@ Section Scale.
                        rx ry rz rL rM rN ri rw ropd option_map scale_ray scale_surf scale_shape scale_aper].
   Ltac foldsc := repeat match goal with |- context [mul s ?a] => change (mul s a) with (sc a) end.
 
+  (* k_rotate_x and k_rotate_z are convertible (same formula on renamed axes), so the rewriting is driven by a
+     syntactic match on the goal *)
+  Ltac rotstep :=
+    match goal with
+    | |- context [k_rotate_x O ?a (sc ?y) (sc ?z) ?M ?N] =>
+        rewrite (rotate_x_scale a y z M N); destruct (k_rotate_x O a y z M N) as [[[? ?] ?] ?]
+    | |- context [k_rotate_y O ?a (sc ?x) (sc ?z) ?L ?N] =>
+        rewrite (rotate_y_scale a x z L N); destruct (k_rotate_y O a x z L N) as [[[? ?] ?] ?]
+    | |- context [k_rotate_z O ?a (sc ?x) (sc ?y) ?L ?M] =>
+        rewrite (rotate_z_scale a x y L M); destruct (k_rotate_z O a x y L M) as [[[? ?] ?] ?]
+    end; rfields; foldsc.
+
   Lemma localize_scale u r : localize (scale_surf s u) (scale_ray s r) = scale_ray s (localize u r).
   Proof.
     destruct u as [sx sy sz srx sry srz sh n1 n2 k1 rf ap co], r as [x y z L M N i w opd].
     unfold localize. rfields. foldsc. unfold k_translate. scnorm.
-    destruct (nonzero srx), (nonzero sry), (nonzero srz); rfields; foldsc;
-    try (rewrite rotate_x_scale; match goal with |- context [k_rotate_x O ?a ?b ?c ?d ?e] => destruct (k_rotate_x O a b c d e) as [[[? ?] ?] ?] end; rfields; foldsc);
-    try (rewrite rotate_y_scale; match goal with |- context [k_rotate_y O ?a ?b ?c ?d ?e] => destruct (k_rotate_y O a b c d e) as [[[? ?] ?] ?] end; rfields; foldsc);
-    try (rewrite rotate_z_scale; match goal with |- context [k_rotate_z O ?a ?b ?c ?d ?e] => destruct (k_rotate_z O a b c d e) as [[[? ?] ?] ?] end; rfields; foldsc);
-    reflexivity.
+    destruct (nonzero srx), (nonzero sry), (nonzero srz); rfields; foldsc; repeat rotstep;
+    with_strategy transparent [sc] reflexivity.
   Qed.
 
   Lemma globalize_scale u r : globalize (scale_surf s u) (scale_ray s r) = scale_ray s (globalize u r).
   Proof.
     destruct u as [sx sy sz srx sry srz sh n1 n2 k1 rf ap co], r as [x y z L M N i w opd].
     unfold globalize. rfields. foldsc.
-    destruct (nonzero srx), (nonzero sry), (nonzero srz); rfields; foldsc;
-    try (rewrite rotate_z_scale; match goal with |- context [k_rotate_z O ?a ?b ?c ?d ?e] => destruct (k_rotate_z O a b c d e) as [[[? ?] ?] ?] end; rfields; foldsc);
-    try (rewrite rotate_y_scale; match goal with |- context [k_rotate_y O ?a ?b ?c ?d ?e] => destruct (k_rotate_y O a b c d e) as [[[? ?] ?] ?] end; rfields; foldsc);
-    try (rewrite rotate_x_scale; match goal with |- context [k_rotate_x O ?a ?b ?c ?d ?e] => destruct (k_rotate_x O a b c d e) as [[[? ?] ?] ?] end; rfields; foldsc);
-    unfold k_translate; scnorm; reflexivity.
+    destruct (nonzero srx), (nonzero sry), (nonzero srz); rfields; foldsc; repeat rotstep;
+    unfold k_translate; scnorm; with_strategy transparent [sc] reflexivity.
   Qed.
+
 
   (** planes and conics in non-absorbing media *)
   Definition scalable (u : surf O) : Prop := sym_shape (s_shape u) = true /\ s_k1 u = ofZ 0.
@@ -195,7 +202,7 @@ Section Scale.
          [ destruct (k_reflect O (ofZ 0) (ofZ 0) (ofZ 1) L M N) as [[tx ty] tz]
          | destruct (k_refract O (ofZ 0) (ofZ 0) (ofZ 1) (s_n1 u) (s_n2 u) L M N) as [[tx ty] tz] ]);
         destruct (s_coat u) as [[tr rf]|]; rfields;
-        rewrite <- globalize_scale; reflexivity.
+        rewrite <- globalize_scale; with_strategy transparent [sc] reflexivity.
     - rewrite std_distance_scale. set (t := k_std_distance O k N L M z x y R).
       rewrite propagate_scale.
       destruct (k_propagate O t x L y M z N (ofZ 0) w i) as [[[px py] pz] pi].
@@ -206,7 +213,7 @@ Section Scale.
          [ destruct (k_reflect O nx ny nz L M N) as [[tx ty] tz]
          | destruct (k_refract O nx ny nz (s_n1 u) (s_n2 u) L M N) as [[tx ty] tz] ]);
         destruct (s_coat u) as [[tr rf]|]; rfields;
-        rewrite <- globalize_scale; reflexivity.
+        rewrite <- globalize_scale; with_strategy transparent [sc] reflexivity.
   Qed.
 
   Theorem trace_scale ss : forall r,
@@ -217,28 +224,30 @@ Section Scale.
     inversion H as [|u' ss' Hu Hss]; subst. cbn [trace map].
     rewrite (trace_surface_scale _ _ Hu).
     destruct (trace_surface u r) as [r'|]; [|reflexivity]. cbn [option_map].
-    rewrite (IH _ Hss). destruct (trace ss r'); reflexivity.
+    rewrite (IH _ Hss). destruct (trace ss r'); with_strategy transparent [sc] reflexivity.
   Qed.
 End Scale.
+
+Transparent sc.
 
 (** ** instance: exact reals, every scale factor s > 0 *)
 Theorem trace_scale_R (s : R) (ss : list (surf ROps)) (r : ray ROps) :
   (0 < s)%R -> Forall (@scalable ROps) ss ->
-  trace (map (scale_surf s) ss) (scale_ray s r) = option_map (map (scale_ray s)) (trace ss r).
+  trace (map (scale_surf (O:=ROps) s) ss) (scale_ray (O:=ROps) s r) = option_map (map (scale_ray (O:=ROps) s)) (trace ss r).
 Proof. intros Hs. apply trace_scale. apply ScaleLaws_R. exact Hs. Qed.
 
 Theorem std_distance_scale_R (s k N L M z x y R0 : R) :
   (0 < s)%R ->
-  k_std_distance ROps k N L M (s * z) (s * x) (s * y) (s * R0) = (s * k_std_distance ROps k N L M z x y R0)%R.
-Proof. intros Hs. exact (std_distance_scale (ScaleLaws_R s Hs) k N L M z x y R0). Qed.
+  k_std_distance ROps k N L M (s * z)%R (s * x)%R (s * y)%R (s * R0)%R = (s * k_std_distance ROps k N L M z x y R0)%R.
+Proof. intros Hs. exact (@std_distance_scale ROps s (ScaleLaws_R s Hs) k N L M z x y R0). Qed.
 
 Theorem std_sag_scale_R (s x y R0 k : R) :
-  (0 < s)%R -> k_std_sag ROps (s * x) (s * y) (s * R0) k = (s * k_std_sag ROps x y R0 k)%R.
-Proof. intros Hs. exact (std_sag_scale (ScaleLaws_R s Hs) x y R0 k). Qed.
+  (0 < s)%R -> k_std_sag ROps (s * x)%R (s * y)%R (s * R0)%R k = (s * k_std_sag ROps x y R0 k)%R.
+Proof. intros Hs. exact (@std_sag_scale ROps s (ScaleLaws_R s Hs) x y R0 k). Qed.
 
 Theorem std_normal_scale_R (s x y R0 k : R) :
-  (0 < s)%R -> k_std_normal ROps (s * x) (s * y) (s * R0) k = k_std_normal ROps x y R0 k.
-Proof. intros Hs. exact (std_normal_scale (ScaleLaws_R s Hs) x y R0 k). Qed.
+  (0 < s)%R -> k_std_normal ROps (s * x)%R (s * y)%R (s * R0)%R k = k_std_normal ROps x y R0 k.
+Proof. intros Hs. exact (@std_normal_scale ROps s (ScaleLaws_R s Hs) x y R0 k). Qed.
 
 Example scalable_example :
   Forall (@scalable ROps)
